@@ -964,7 +964,10 @@ func (p *CodeBuilder) UntypedBigInt(v *big.Int, src ...ast.Node) *CodeBuilder {
 			End().Call(0)
 	}
 	ret := p.stk.Get(-1)
-	ret.Type, ret.CVal, ret.Src = pkg.utBigInt, constant.Make(v), getSrc(src)
+	ret.Src = getSrc(src)
+	if pkg.utBigInt != nil { // without big-number types the value keeps its *big.Int type
+		ret.Type, ret.CVal = pkg.utBigInt, constant.Make(v)
+	}
 	return p
 }
 
@@ -983,7 +986,10 @@ func (p *CodeBuilder) UntypedBigRat(v *big.Rat, src ...ast.Node) *CodeBuilder {
 			MemberVal("SetFrac", 0).UntypedBigInt(a).UntypedBigInt(b).Call(2)
 	}
 	ret := p.stk.Get(-1)
-	ret.Type, ret.CVal, ret.Src = pkg.utBigRat, constant.Make(v), getSrc(src)
+	ret.Src = getSrc(src)
+	if pkg.utBigRat != nil { // without big-number types the value keeps its *big.Rat type
+		ret.Type, ret.CVal = pkg.utBigRat, constant.Make(v)
+	}
 	return p
 }
 
